@@ -22,6 +22,8 @@ pub struct TraitCodegen<'s> {
     pub sub_attributes: &'s [SubAttribute<'s>],
     /// `unsafe trait` (only entraited traits can be)
     pub unsafety: Option<syn::token::Unsafe>,
+    /// The associated types of an entraited trait
+    pub associated_types: &'s [syn::TraitItemType],
 }
 
 impl TraitCodegen<'_> {
@@ -103,6 +105,7 @@ impl TraitCodegen<'_> {
         let params = trait_generics.trait_params();
         let where_clause = trait_generics.trait_where_clause();
         let unsafety = &self.unsafety;
+        let associated_types = self.associated_types;
 
         // For a hand-written (entraited) trait every attribute the user wrote stays on the trait.
         // For generated traits only `async_trait` / `automock` are taken over from the fn/mod/impl block.
@@ -121,6 +124,7 @@ impl TraitCodegen<'_> {
             #opt_mockall_automock_attr
             #(#trait_sub_attributes)*
             #trait_visibility #unsafety trait #trait_ident #params #supertraits #where_clause {
+                #(#associated_types)*
                 #(#fn_defs)*
             }
         })
